@@ -88,6 +88,13 @@ HISTORIES = {
         [("merge-env", 0, "e2"), ("combine", 2, ["p2", "p0"])],
         [("merge-env", 0, "e1"), ("trace_out", 2, ["p1", "p0"])],
         [("povm", 1, ["p1"], True), ("merge", 0, 1)],
+        # calls that re-order members INSIDE a product space that came in through a merge (its position in the merged list
+        # differs from the one it had in its old container)
+        [("merge", 0, 1), ("reorder", 2, ["c0", "p1"])],
+        [("merge", 1, 0), ("reorder", 2, ["f0", "p0"])],
+        [("merge", 0, 1), ("kraus", 2, ["c0"])],
+        [("merge", 0, 1), ("trace_out", 2, ["c0"])],
+        [("merge", 1, 0), ("povm", 2, ["f0"], False)],
     ],
     # chains of merges: an old handle whose uid was re-assigned by an earlier merge must follow later merges
     "E": [
